@@ -43,6 +43,13 @@ BLANK_LINES = ["", " ", "\t", "  \t "]
 SRCS = ["text", "bytes", "path"]
 COLS = ["id", "type", "x", "y", "z", "r", "pid"]
 BAD_TEMPLATE = ["9", "3", "1.5", "2", "0", "1", "1"]
+# what is left of the column-header line the WRITER emits (`# id type x y z r pid [extra columns]`) behind the '#': the reader takes the LAST
+# comment line in front of the first row for that header if it starts like this, and returns every other comment line
+HEADER_TEXT = " " + " ".join(COLS)
+# comment lines for the slots around the rows (group 1d): plain ones and ones that start like the column header
+SLOT_PLAIN = ["# a", "#b"]
+SLOT_HEADER_LIKE = ["#" + HEADER_TEXT, "#" + HEADER_TEXT + " e", "  #" + HEADER_TEXT + "x and more", "#" + HEADER_TEXT + "  "]
+SLOT_NEARLY = ["#" + HEADER_TEXT[1:], "#  " + HEADER_TEXT[1:], "# " + HEADER_TEXT[1:].upper(), "#" + HEADER_TEXT[:-4]]  # no blank / two blanks / upper case / cut short
 
 
 # ---------------------------------------------------------------- reporting
@@ -88,18 +95,25 @@ def ref_read(text, nextra=0):
     """Independent reader: returns (rows, comments, field_counts).  A row is
     [id, type, x, y, z, r, pid, extra...]; only str.split / int / float are used."""
     rows, comments, nfields = [], [], []
+    behind_hash, lead = [], None  # text behind the '#' of every comment line; number of comment lines in front of the first row
     for line in text.replace("\r\n", "\n").split("\n"):
         s = line.strip()
         if s == "":
             continue
         if s[0] == "#":
             comments.append(s[1:].strip())
+            behind_hash.append(s[1:])
             continue
         tok = s.split()
         if len(tok) < 7 + nextra:
             raise ValueError(f"reference reader: short row {line!r}")
+        if lead is None:
+            lead = len(comments)
         rows.append([int(tok[0]), int(tok[1])] + [float(t) for t in tok[2:6]] + [int(tok[6])] + [float(t) for t in tok[7:7 + nextra]])
         nfields.append(len(tok))
+    lead = len(comments) if lead is None else lead
+    if lead and behind_hash[lead - 1].startswith(HEADER_TEXT):
+        del comments[lead - 1]  # the writer's column header: the last comment line in front of the rows, and only that one
     return rows, comments, nfields
 
 
@@ -462,7 +476,38 @@ def check_large(rep, spec, base):
                 f"{len(comments)} comments, #{k} = {comments[k][:40] if k < len(comments) else '<none>'!r}", "large")
 
 
-CHECKS = dict(good=check_good, bad=check_bad, undecodable=check_undecodable, sorted=check_sorted, large=check_large)
+def check_large_text(rep, spec, base):
+    """spec: kind='largetext', nrows, src, bad ('none' | 'last' | 'middle'), tree.  A text of `nrows` rows and as many comment lines (generated from the
+    spec, sizes from some 100 KB to several MB: beyond every usual read buffer): every row and every comment comes back; ONE malformed line in the middle
+    or at the very end raises however far into the text it stands."""
+    from swcgeom.core import Tree
+    from swcgeom.core.swc_utils import read_swc
+
+    n = spec["nrows"]
+    lines = big_body(n).decode("utf-8").splitlines(keepends=True)
+    if spec["bad"] != "none":
+        lines.insert(len(lines) if spec["bad"] == "last" else len(lines) // 2, " ".join(BAD_TEMPLATE[:6]) + "\n")
+    text = "".join(lines)
+    fns = [("read_swc", read_swc)] + ([("Tree.from_swc", Tree.from_swc)] if spec.get("tree") else [])
+    for name, fn in fns:
+        res, exc, _ = _call(fn, text, spec["src"], base, {})
+        if spec["bad"] != "none":
+            if exc is None:
+                got = len(res[0]) if name == "read_swc" else res.number_of_nodes()
+                rep.add(name, "malformed-line-raises", spec, f"no error; {got} of {n} rows returned", "an exception", "large text")
+            continue
+        if exc is not None:
+            rep.add(name, "operation-raises", spec, _exc(exc), f"{n} rows", "large text")
+            continue
+        got_n = len(res[0]) if name == "read_swc" else res.number_of_nodes()
+        if got_n != n:
+            rep.add(name, "one-node-per-row", spec, f"{got_n} rows", f"{n} rows", "large text")
+        comments = [c.strip() for c in (res[1] if name == "read_swc" else res.comments)]
+        if comments != [f"c{i:04d}" for i in range(n)]:
+            rep.add(name, "comments-in-order", spec, f"{len(comments)} comments, last {comments[-1:]}", f"{n} comments, last ['c{n - 1:04d}']", "large text")
+
+
+CHECKS = dict(good=check_good, bad=check_bad, undecodable=check_undecodable, sorted=check_sorted, large=check_large, largetext=check_large_text)
 
 
 # ---------------------------------------------------------------- text assembly
@@ -519,6 +564,8 @@ def split_lines(text):
 
 def bad_lines(template=BAD_TEMPLATE):
     out = [("6-fields", " ".join(template[:6])), ("1-field", "5")]
+    # a '#' BEHIND non-blank content does not make a comment line (a comment line is blanks, then '#'): a complete row, a short row and a word followed by '#...'
+    out += [("row-then-hash", " ".join(template) + " # tip"), ("short-row-then-hash", " ".join(template[:4]) + " #"), ("word-then-hash", "x # y")]
     for j in range(7):
         t = list(template); t[j] = "abc"
         out.append((f"abc@{COLS[j]}", " ".join(t)))
@@ -584,6 +631,32 @@ def run(ctx):
                         spec["exp_extra"] = True
                     go("good-exp-extra", spec)
 
+        # (1d) comment lines in every slot around two rows (in front of the first row, between the rows, behind the last one): none, one or two
+        # lines per slot, plain ones and ones that start like the writer's column header (with extra columns, indented, with a suffix) or nearly
+        # do; blank lines mixed in.  Only the LAST comment line in front of the first row is the column header, and only if it starts like it.
+        pool = [SLOT_PLAIN[0], SLOT_HEADER_LIKE[0], SLOT_HEADER_LIKE[1]]
+        fills = [()] + [(a,) for a in pool] + [(a, b) for a in pool for b in pool if SLOT_HEADER_LIKE[0] in (a, b) or SLOT_HEADER_LIKE[1] in (a, b)]
+        if not thorough:
+            fills = [f for f in fills if len(f) < 2 or f in ((pool[0], pool[1]), (pool[1], pool[0]), (pool[1], pool[1]), (pool[1], pool[2]))]
+        kc = 0
+        two = ["1 1 0 0 0 1 -1", "2 1 1 0 0 1 1"]
+        for front, mid, back in itertools.product(fills, repeat=3):
+            kc += 1
+            if not thorough and (len(front) + len(mid) + len(back) > 3 or (mid and back and kc % 2)):
+                continue
+            blank = [BLANK_LINES[kc % 4]] if kc % 3 == 0 else []
+            lines = list(front) + blank + two[:1] + list(mid) + two[1:] + (blank if kc % 2 else []) + list(back)
+            eol = EOLS[kc % 5 == 0]
+            go("good-comment-slots", dict(kind="good", text=eol.join(lines) + (eol if kc % 7 else ""), src=SRCS[kc % 3], opts=dict(reset_index=(kc % 4 != 0))))
+        for h in SLOT_HEADER_LIKE + SLOT_NEARLY + SLOT_PLAIN:  # every spelling alone in every slot, and in front of the rows behind nothing / a plain line / itself
+            for slot in range(3):
+                kc += 1
+                lines = ([h] if slot == 0 else []) + two[:1] + ([h] if slot == 1 else []) + two[1:] + ([h] if slot == 2 else [])
+                go("good-comment-slots", dict(kind="good", text="\n".join(lines) + "\n", src=SRCS[kc % 3], opts=dict(reset_index=True)))
+            for extra in ((), ("# a",), (h,)):
+                kc += 1
+                go("good-comment-slots", dict(kind="good", text="\n".join(extra + (h,) + tuple(two)) + "\n", src=SRCS[kc % 3], opts=dict(reset_index=False)))
+
         # (1c) encodings
         for enc in ("utf-8", "utf-16", "latin-1", "detect"):
             for src in ("bytes", "path", "text"):
@@ -638,6 +711,15 @@ def run(ctx):
                     go("undecodable", dict(kind="undecodable", nrows=nrows, offset=off, where=where, src=src, tree=True))
         for off in (0, 5, 20):  # and in a tiny body
             go("undecodable", dict(kind="undecodable", nrows=2, offset=off, where="raw", src="bytes", tree=True))
+
+        # (3b) large texts (about 100 KB, 1.2 MB; 5 MB in the thorough tier: sizes beyond the usual read-buffer sizes): everything comes back, a
+        # malformed line far into the text still raises; every source kind
+        for nrows in (2500, 30000) + ((120000,) if thorough else ()):
+            for src in SRCS:
+                for bad_at in ("none", "last", "middle"):
+                    if not thorough and nrows > 2500 and bad_at == "middle":
+                        continue
+                    go("large", dict(kind="largetext", nrows=nrows, src=src, bad=bad_at, tree=(src == "text" and nrows <= 30000)))
 
         # (4) sort_nodes=True: arbitrary distinct ids, arbitrary row order
         def sorted_text(pid, perm, ids, kx):
